@@ -5,9 +5,11 @@ Model/Conc — small-step interleaving semantics of threads running lock skeleto
     while `owner l = none`, so a thread acquiring a lock it already holds blocks forever;
   * every thread is a continuation of micro-steps
         acquire l | release l | load x | store x u | iterBegin x | iterEnd x | call … | yield
-    `load x` copies the cell into the thread's private register for `x`; `store x u` writes `ap u (register x)`.
-    A read-modify-write is `load x; store x u` — a thread switch may fall between the two (that is the
-    read-add-store bytecode window); `withLock l body` is `acquire l; body; release l`;
+    `load x` copies the cell into the thread's private register for `x`; `store x u` writes
+    `ap u (register x) (cell x)`: the update may depend on what the thread read earlier (`+=` adds to the value it LOADED;
+    `if k not in d: d[k] = c` inserts according to the table it LOOKED AT) and on the cell itself (a subscript store or a
+    `list.append` is one bytecode on the live object).  A read-modify-write is `load x; store x u` — a thread switch may
+    fall between the two (that is the read-add-store bytecode window); `withLock l body` is `acquire l; body; release l`;
   * a schedule is any list of thread ids; a step of a blocked or finished thread is disabled (`step = none`) and `run`
     skips it;
   * "dictionary changed size during iteration": `iterBegin x … iterEnd x` brackets an iteration over `x`; a `store x`
@@ -65,7 +67,7 @@ section Sem
 variable {L X U V : Type} [DecidableEq L] [DecidableEq X]
 
 /-- one step of thread `i`; `none` = disabled (no such thread, finished, or blocked) -/
-def step (ap : U → V → V) (s : St L X U V) (i : Tid) : Option (St L X U V) :=
+def step (ap : U → V → V → V) (s : St L X U V) (i : Tid) : Option (St L X U V) :=
   match s.threads[i]? with
   | none => none
   | some t =>
@@ -85,10 +87,10 @@ def step (ap : U → V → V) (s : St L X U V) (i : Tid) : Option (St L X U V) :
       some { s with threads := s.threads.set i { t with pc := r, reg := upd t.reg x (s.cell x) },
                     log := upd s.log x (.rd i (s.cell x) :: s.log x) }
     | .store x u :: r =>
-      some { s with cell := upd s.cell x (ap u (t.reg x)),
-                    threads := s.threads.set i { t with pc := r, reg := upd t.reg x (ap u (t.reg x)) },
+      some { s with cell := upd s.cell x (ap u (t.reg x) (s.cell x)),
+                    threads := s.threads.set i { t with pc := r, reg := upd t.reg x (ap u (t.reg x) (s.cell x)) },
                     err := upd s.err x (s.err x || (s.iters x).any (fun j => decide (j ≠ i))),
-                    log := upd s.log x (.wr i u (ap u (t.reg x)) :: s.log x) }
+                    log := upd s.log x (.wr i u (ap u (t.reg x) (s.cell x)) :: s.log x) }
     | .iterBegin x :: r =>
       some { s with iters := upd s.iters x (i :: s.iters x), threads := s.threads.set i { t with pc := r } }
     | .iterEnd x :: r =>
@@ -97,7 +99,7 @@ def step (ap : U → V → V) (s : St L X U V) (i : Tid) : Option (St L X U V) :
     | .yield :: r => some { s with threads := s.threads.set i { t with pc := r } }
 
 /-- run a schedule; disabled steps are skipped -/
-def run (ap : U → V → V) (s : St L X U V) : List Tid → St L X U V
+def run (ap : U → V → V → V) (s : St L X U V) : List Tid → St L X U V
   | [] => s
   | i :: sched =>
     match step ap s i with
@@ -114,7 +116,10 @@ def finished (s : St L X U V) : Prop := ∀ t ∈ s.threads, t.pc = []
 def finishedB (s : St L X U V) : Bool := s.threads.all (fun t => t.pc.isEmpty)
 
 /-- no thread can move -/
-def stuck (ap : U → V → V) (s : St L X U V) : Prop := ∀ i, step ap s i = none
+def stuck (ap : U → V → V → V) (s : St L X U V) : Prop := ∀ i, step ap s i = none
+
+/-- an update applied to a cell the thread has just loaded (register = cell): what the update means in a linearisation -/
+def lin (ap : U → V → V → V) : U → V → V := fun u v => ap u v v
 
 /-- updates / values recorded in a log (newest first) -/
 def applied : List (Ev U V) → List U
@@ -238,9 +243,12 @@ def Micro.map {L' X' U' : Type} (fL : L → L') (fX : X → X') (fU : U → U') 
 
 end Compile
 
-/-- the canonical binding: one object of each kind, labels are the variable names -/
-def canon : Binding LockId Var Var := { lock := id, var := id, upd := id }
+/-- label of a store in canonical code: (variable, index of the sub-call inside a composite call) -/
+abbrev CLabel := Var × Nat
 
-abbrev CMicro := Micro LockId Var Var
+/-- the canonical binding: one object of each kind; the label of a store names its variable and the sub-call `k` -/
+def canon (k : Nat) : Binding LockId Var CLabel := { lock := id, var := id, upd := fun x => (x, k) }
+
+abbrev CMicro := Micro LockId Var CLabel
 
 end PromVerif.Model.Conc
